@@ -256,6 +256,17 @@ fn build_response(req: &Message<Vec<u8>>, qname: &str, qtype: Rtype, flags: Flag
             ab.push((o, Class::IN, Ttl::from_secs(ttl), t)).unwrap();
         } else if qtype == Rtype::A {
             ab.push((o, Class::IN, Ttl::from_secs(ttl), ip.clone())).unwrap();
+        } else if qtype == Rtype::NSEC {
+            let mut bm = RtypeBitmap::<Vec<u8>>::builder();
+            bm.add(Rtype::A).unwrap();
+            bm.add(Rtype::NSEC).unwrap();
+            ab.push((o, Class::IN, Ttl::from_secs(ttl), Nsec::new(dns::name(&format!("z{:x}.cache.", serial)), bm.finalize()))).unwrap();
+        } else if qtype == Rtype::NSEC3 {
+            let mut bm = RtypeBitmap::<Vec<u8>>::builder();
+            bm.add(Rtype::A).unwrap();
+            let next = domain::rdata::nsec3::OwnerHash::<Vec<u8>>::from_octets(serial.to_be_bytes().repeat(5)).unwrap();
+            let salt = domain::rdata::nsec3::Nsec3Salt::<Vec<u8>>::from_octets(serial.to_be_bytes().to_vec()).unwrap();
+            ab.push((o, Class::IN, Ttl::from_secs(ttl), domain::rdata::Nsec3::new(domain::base::iana::Nsec3HashAlgorithm::SHA1, 0, 1, salt, next, bm.finalize()))).unwrap();
         } else {
             // Explicit query for a DNSSEC type: answer with that type.
             ab.push((o, Class::IN, Ttl::from_secs(ttl), sig(Rtype::A, ttl))).unwrap();
@@ -458,6 +469,12 @@ fn serial_of(v: &View) -> Vec<u32> {
             }
             Rtype::SOA => {
                 if let Some(s) = r.rdata.split_whitespace().nth(2).and_then(|s| s.parse::<u32>().ok()) {
+                    out.push(s);
+                }
+            }
+            // (An NSEC3 record carries the serial as its salt.)
+            Rtype::NSEC3 => {
+                if let Some(s) = r.rdata.split_whitespace().nth(3).and_then(|s| u32::from_str_radix(s, 16).ok()) {
                     out.push(s);
                 }
             }
@@ -691,24 +708,40 @@ impl Scenario for CacheScn {
 
 async fn run(_tier: Tier) {
     let faulty = sim::draw("faulty", 4) != 0;
+    // What the configuration is asked for and what it takes: every setter
+    // documents the range its value "has to be between" and clamps to it (an
+    // NXDOMAIN or NODATA bound of three days is one day, RFC 2308 section 5).
+    let asked = |label: &'static str, opts: &[u64], lo: u64, hi: u64| -> (u64, u64) {
+        let a = *sim::pick(label, opts);
+        if a < lo || a > hi {
+            sim::stat("probe.config_value_outside_its_documented_range");
+        }
+        (a, a.clamp(lo, hi))
+    };
+    let max_validity = asked("cfg.max_validity", &[604_800, 60, 3600, 30, 10_000_000], 60, 6_048_000);
+    let transport_failure = asked("cfg.transport_failure", &[30, 1, 300, 0, 3600], 1, 300);
+    let misc_error = asked("cfg.misc_error", &[30, 1, 300, 0, 3600], 1, 300);
+    let nxdomain = asked("cfg.nxdomain", &[3600, 60, 86_400, 259_200, 10], 60, 86_400);
+    let nodata = asked("cfg.nodata", &[3600, 60, 86_400, 259_200, 10], 60, 86_400);
+    let delegation = asked("cfg.delegation", &[1_000_000, 60, 3600, 10], 60, 1_000_000_000);
     let cfg = Cfg {
-        max_validity: *sim::pick("cfg.max_validity", &[604_800, 60, 3600]),
-        transport_failure: *sim::pick("cfg.transport_failure", &[30, 1, 300]),
-        misc_error: *sim::pick("cfg.misc_error", &[30, 1, 300]),
-        nxdomain: *sim::pick("cfg.nxdomain", &[3600, 60, 86_400]),
-        nodata: *sim::pick("cfg.nodata", &[3600, 60, 86_400]),
-        delegation: *sim::pick("cfg.delegation", &[1_000_000, 60, 3600]),
+        max_validity: max_validity.1,
+        transport_failure: transport_failure.1,
+        misc_error: misc_error.1,
+        nxdomain: nxdomain.1,
+        nodata: nodata.1,
+        delegation: delegation.1,
         cache_truncated: sim::chance("cfg.cache_truncated", 1, 3),
         max_entries: *sim::pick("cfg.max_entries", &[1000, 1, 3]),
     };
     ev!("cfg {:?} faulty={}", cfg, faulty);
     let mut c = cache::Config::new();
-    c.set_max_validity(Duration::from_secs(cfg.max_validity));
-    c.set_transport_failure_duration(Duration::from_secs(cfg.transport_failure));
-    c.set_misc_error_duration(Duration::from_secs(cfg.misc_error));
-    c.set_max_nxdomain_validity(Duration::from_secs(cfg.nxdomain));
-    c.set_max_nodata_validity(Duration::from_secs(cfg.nodata));
-    c.set_max_delegation_validity(Duration::from_secs(cfg.delegation));
+    c.set_max_validity(Duration::from_secs(max_validity.0));
+    c.set_transport_failure_duration(Duration::from_secs(transport_failure.0));
+    c.set_misc_error_duration(Duration::from_secs(misc_error.0));
+    c.set_max_nxdomain_validity(Duration::from_secs(nxdomain.0));
+    c.set_max_nodata_validity(Duration::from_secs(nodata.0));
+    c.set_max_delegation_validity(Duration::from_secs(delegation.0));
     c.set_cache_truncated(cfg.cache_truncated);
     c.set_max_cache_entries(cfg.max_entries);
 
@@ -723,7 +756,7 @@ async fn run(_tier: Tier) {
     // flag-lattice fallbacks) frequent; wide runs exercise eviction.
     let n_names = 1 + sim::draw("focus.names", 4);
     let flag_mask = *sim::pick("focus.flag_mask", &[0b0001u64, 0b1111, 0b1001, 0b0101, 0b0011, 0b1000, 0b0100, 0b0000, 0b1101]);
-    let n_types = 1 + sim::draw("focus.types", 3);
+    let n_types = 1 + sim::draw("focus.types", 5);
     let mut k = 0usize;
     for ci in 0..n_clients {
         let n = 1 + sim::draw("n_queries", 15) as usize;
@@ -757,7 +790,7 @@ async fn run(_tier: Tier) {
                     1 => format!("N{}.Cache", ni),
                     _ => format!("n{}.CACHE", ni),
                 };
-                let qtype = [Rtype::A, Rtype::TXT, Rtype::RRSIG][sim::draw("q.type", n_types) as usize];
+                let qtype = [Rtype::A, Rtype::TXT, Rtype::RRSIG, Rtype::NSEC3, Rtype::NSEC][sim::draw("q.type", n_types) as usize];
                 // Mostly the Internet class; now and then the same name and
                 // type in another class, which is another question.
                 let qclass = if sim::chance("q.other_class", 1, 10) { *sim::pick("q.class", &[Class::CH, Class::HS]) } else { Class::IN };
